@@ -270,6 +270,12 @@ int KSI_TlvElement_serialize(const KSI_TlvElement *element, unsigned char *buf, 
 	/* Calculate the header length. */
 	hdr_len = HDR_LEN(element->ftlv.tag, dat_len);
 
+	/* An element that still is the octets it was parsed from keeps the (possibly longer than necessary)
+	 * header form it came with: looking into a parent element must not change what it serializes to. */
+	if (element->subList == NULL && element->ftlv.hdr_len == 4) {
+		hdr_len = 4;
+	}
+
 	/* Calculate the length of the output buffer. */
 	buf_len = dat_len;
 
